@@ -174,6 +174,14 @@ pub fn main_run(args: &[String]) -> i32 {
                     let _ = std::fs::remove_dir_all(&dir);
                     std::fs::create_dir_all(&dir).ok();
                     let cfg = base(Args { leader: false, follower: true, sync_port: None, leader_address: Some(format!("127.0.0.1:{sync_port}")), instance_name: None }, &dir).await;
+                    // the leader opens its sync port a moment after its API is up: a follower that is refused
+                    // the connection terminates (the orchestrator would restart it) - wait for the port
+                    for _ in 0..2500 {
+                        if crate::sock_drv::tcp_listening(sync_port) {
+                            break;
+                        }
+                        tokio::time::sleep(Duration::from_millis(2)).await;
+                    }
                     if let Some(n) = start(cfg, dir).await {
                         // the join has happened once the follower serves its synced state: wait for $SYS/mode
                         for _ in 0..2000 {
